@@ -19,6 +19,36 @@ class Batch:
     def count(self, k, n=1):
         self.st[k] = self.st.get(k, 0) + n
 
+    # ---- grouping: several consecutive cases share one driver child process (cross-call state becomes observable)
+    GROUP_SIZES = [1, 2, 1, 3, 2, 5, 1, 4, 2, 8]
+
+    def begin_case(self, s, c, solo=False, key=None):
+        """Opens a fork block for case c unless the current group still has room (and the same key). Returns True if a
+        new process was started (process-wide state such as the uid must be set up by the caller then)."""
+        if not hasattr(self, "_gleft"):
+            self._gleft, self._gopen, self._gkey, self._gtag, self.case_group = 0, False, None, None, {}
+        new = False
+        if solo or self._gleft <= 0 or not self._gopen or key != self._gkey:
+            if self._gopen:
+                s.endfork()
+            s.fork(c["id"])
+            self._gopen, self._gtag, self._gkey = True, c["id"], key
+            self._gleft = 1 if solo else self.GROUP_SIZES[c["id"] % len(self.GROUP_SIZES)]
+            new = True
+        self.case_group[c["id"]] = self._gtag
+        return new
+
+    def end_case(self, s, c):
+        self._gleft -= 1
+        if self._gleft <= 0 and self._gopen:
+            s.endfork()
+            self._gopen = False
+
+    def finish(self, s):
+        if getattr(self, "_gopen", False):
+            s.endfork()
+            self._gopen = False
+
 
 def _run(arg):
     prop, bld, batch, bi, root, script_fn, check_fn, opts = arg
@@ -32,6 +62,7 @@ def _run(arg):
     s.sinkfile(B.logf)
     for c in batch:
         script_fn(c, B, s)
+    B.finish(s)
     res = run_vdrive(bld, s.text(), work, timeout=opts.get("timeout", 600), asan=opts.get("asan", False),
                      heap=opts.get("heap", False), mtx=opts.get("mtx", True), env_extra=opts.get("env"),
                      exe=opts.get("exe"), preload=opts.get("preload"))
@@ -51,7 +82,39 @@ def _run(arg):
         if e["ev"] == "VTRUE" and e["pid"] in pid2id:
             byid.setdefault(pid2id[e["pid"]], []).append(e)
     B.res = res
+    # grouped cases: give every member the CHILD event of its group; if the group's process died, the blame goes to the
+    # last member that had begun, and members that never ran are inconclusive
+    groups = {}
     for c in batch:
+        g = getattr(B, "case_group", {}).get(c["id"])
+        if g is not None:
+            groups.setdefault(g, []).append(c)
+    skip = set()
+    for g, members in groups.items():
+        if len(members) == 1 and members[0]["id"] == g:
+            continue
+        ch = [e for e in byid.get(g, []) if e["ev"] == "CHILD" and e.get("tag") == g]
+        if not ch:
+            continue
+        died = bool(ch[0]["signal"] or ch[0].get("timeout") or ch[0].get("status"))
+        begun = [m for m in members if any(e["ev"] == "BEGIN" for e in byid.get(m["id"], []))]
+        culprit = begun[-1]["id"] if begun else members[0]["id"]
+        for m in members:
+            evs = byid.setdefault(m["id"], [])
+            if m["id"] == g:
+                evs[:] = [e for e in evs if not (e["ev"] == "CHILD" and e.get("tag") == g)]
+            if not died:
+                evs.append(ch[0])
+            elif m["id"] == culprit:
+                evs.append(ch[0])
+            elif m not in begun:
+                skip.add(m["id"])
+            else:
+                evs.append(dict(ch[0], signal=0, timeout=0, status=0))
+    for c in batch:
+        if c["id"] in skip:
+            B.count("inconclusive_not_run")
+            continue
         check_fn(c, byid.get(c["id"], []), B)
     B.res = None
     if not opts.get("keep"):
